@@ -47,7 +47,7 @@ fn judge_request(case: &NetCase, obs: &Obs, id: usize) -> Option<(String, String
                 Some(("response-headers-altered".into(), format!("{desc}: {hp}")))
             } else if id_hdr != Some(id) {
                 Some(("response-for-another-request".into(), format!("{desc} received the response produced for request {id_hdr:?}")))
-            } else if origin_hdr != Some(srv) {
+            } else if origin_hdr != Some(redirect_target(case, spec).unwrap_or(srv)) {
                 Some(("response-from-wrong-origin".into(), format!("{desc} was answered by server {origin_hdr:?}")))
             } else if status != (if is_upgrade(case, spec) { 101 } else { 200 + (id % 3) as u16 }) {
                 Some(("response-status-altered".into(), format!("{desc} received status {status}")))
@@ -300,6 +300,23 @@ impl Engine for NetEngine {
             rep.nontrivial = in_flight_during_fault && obs.probes.iter().all(|(_, o)| matches!(o, ClientOutcome::Ok { .. }));
         }
 
+        // ---- C13 end to end: every request names the origin it is sent to (Host on HTTP/1, :authority
+        // on HTTP/2), also on the hops of a followed redirect
+        if p == "C13" {
+            for m in &obs.mismatches {
+                if m.contains("Host header") || m.contains("HTTP/2 authority") {
+                    rep.violate("C13/e2e-host-or-authority-wrong", m.clone());
+                }
+            }
+            if case.reqs.iter().any(|r| redirect_target(case, r).is_some()) {
+                rep.class("redirect-followed");
+            }
+            if case.reqs.iter().any(|r| redirect_target(case, r).map(|t| t != r.server as usize % nsrv).unwrap_or(false)) {
+                rep.class("cross-origin-redirect");
+            }
+            rep.nontrivial = rep.classes.contains(&"cross-origin-redirect");
+        }
+
         // ---- C04 end to end: all requests to an HTTP/2-only origin share one connection
         if p == "C04" {
             let all_done = (0..case.reqs.len()).all(|id| matches!(obs.client.get(&id), Some((ClientOutcome::Ok { .. }, _))));
@@ -416,8 +433,9 @@ pub fn c01_strategy(max_reqs: usize) -> impl Strategy<Value = NetCase> {
 pub fn c01_strategy_up(max_reqs: usize, up_weight: u32) -> impl Strategy<Value = NetCase> {
     (servers_strategy(), env_strategy()).prop_flat_map(move |(servers, (pool, connect_delay, latency, buf))| {
         let n = servers.len() as u8;
-        let req = (req_strategy(n, true, false), prop_oneof![8 - up_weight => Just(false), up_weight => Just(true)]).prop_map(|(mut r, up)| {
+        let req = (req_strategy(n, true, false), prop_oneof![8 - up_weight => Just(false), up_weight => Just(true)], prop_oneof![9 => Just(None), 1 => (0..n).prop_map(Some)]).prop_map(|(mut r, up, redirect)| {
             r.upgrade = up;
+            r.redirect = redirect;
             r
         });
         proptest::collection::vec(req, 1..=max_reqs).prop_map(move |reqs| NetCase {
@@ -498,6 +516,31 @@ pub fn c07_burst_strategy(max_reqs: usize) -> impl Strategy<Value = NetCase> {
             buf,
             timeout_ms: None,
             shutdown_on_accept: Some(k),
+            builder_order: 0,
+            hold_server_future: false,
+        })
+    })
+}
+
+/// Requests of which half are answered 303 and followed to another (or the same) origin.
+pub fn c13_e2e_strategy(max_reqs: usize) -> impl Strategy<Value = NetCase> {
+    (servers_strategy(), env_strategy()).prop_flat_map(move |(servers, (pool, connect_delay, latency, buf))| {
+        let n = servers.len() as u8;
+        let req = (req_strategy(n, false, false), prop_oneof![1 => Just(None), 1 => (0..n).prop_map(Some)]).prop_map(|(mut r, redirect)| {
+            r.redirect = redirect;
+            r
+        });
+        proptest::collection::vec(req, 1..=max_reqs).prop_map(move |reqs| NetCase {
+            servers: servers.clone(),
+            reqs,
+            faults: vec![],
+            shutdown: None,
+            pool: pool.clone(),
+            connect_delay,
+            latency,
+            buf,
+            timeout_ms: None,
+            shutdown_on_accept: None,
             builder_order: 0,
             hold_server_future: false,
         })
